@@ -37,7 +37,7 @@ CHECKS = {
   "DESIGN.md §4, §5 C06"),
  "C11": ("enum+seqx+coop",
   "exhaustive enumeration of payload lengths x socket kinds on two real stacks; explicit-state search over all interleavings of sends, reads, shutdown, close against a reference queue; stateless model checking of concurrent readers vs delivery",
-  "Every payload length 0..1472 over IPv4, IPv6 and v4-mapped destinations through sender kinds {bound *, bound specific, connected, unbound} x receiver kinds {bound *, bound specific, connected}; lengths {1473, 2000, 65507, 65508, 65527, 65528, 65535, 65536}: one emitted packet with exactly those bytes and consistent length fields, or an error and no packet; every Read returns one datagram byte-for-byte with the true source address/port, once; all sequences of length <=5 (6) over sends from two senders, read, shutdown(read), shutdown(write), shutdown(read+write), close against the fixed 32 KiB receive buffer; raw datagrams whose IP payload is longer than the UDP length; 4 programs of two readers racing packet delivery, all schedules with <=2 preemptions.",
+  "Every payload length 0..1472 over IPv4, IPv6 and v4-mapped destinations through sender kinds {bound *, bound specific, connected, unbound} x receiver kinds {bound *, bound specific, connected}; lengths {1473, 2000, 65507, 65508, 65527, 65528, 65535, 65536}: one emitted packet with exactly those bytes and consistent length fields, or an error and no packet; every Read returns one datagram byte-for-byte with the true source address/port, once; all sequences of length <=5 (6) over sends from two senders, read, shutdown(read), shutdown(write), shutdown(read+write), close against the fixed 32 KiB receive buffer; raw datagrams whose IP payload is longer than the UDP length, and datagrams with one payload bit damaged in transit (must not be returned); 4 programs of two readers racing packet delivery, all schedules with <=2 preemptions.",
   "A datagram that fits must be accepted; one that does not may be dropped whole.",
   "DESIGN.md §5 C11"),
  "C13": ("enum",
